@@ -170,6 +170,22 @@ func init() {
 			c.R.Mismatch("tagsbytes", hin, hx(string(t.Bytes())), m)
 		}
 		c.genCheck("tagsbytes", hin, hx(string(t.Bytes())), encTags(t))
+		// whatever Set accepted survives the wire: serialise an event carrying these tags, parse the line, read every key back
+		if len(t) > 0 {
+			e := &girc.Event{Command: "PRIVMSG", Params: []string{"#c", "x"}, Tags: t}
+			if p := girc.ParseEvent(e.String()); p == nil {
+				c.R.Violation("tagapi.wire", hin, "nil", "", "an event carrying tags accepted by Tags.Set does not parse back")
+			} else {
+				for k := range t {
+					want, _ := t.Get(k)
+					got, ok := p.Tags.Get(k)
+					if !ok || got != want {
+						c.R.Violation("tagapi.wire", hin, fmt.Sprintf("%q -> %q (present=%v)", k, got, ok), q(want), "a tag value accepted by Tags.Set reads differently after serialising and parsing the event")
+						break
+					}
+				}
+			}
+		}
 	}
 
 	// grammar: a parse tree is rendered by the Lean spec; the implementation must parse the rendering to the
